@@ -13,7 +13,6 @@ import time
 VERIF = os.path.dirname(os.path.dirname(os.path.abspath(__file__)))
 LEAN = os.path.join(VERIF, "lean")
 REPO = os.environ.get("BATCHIE_REPO", "/repo")
-DRIVER_BIN = os.path.join(LEAN, ".lake", "build", "bin", "driver")
 
 ALLOWED_AXIOMS = {"propext", "Classical.choice", "Quot.sound"}
 
@@ -60,8 +59,9 @@ def run_cmd(cmd, cwd=None, timeout=None, env=None, input=None):
 class Driver:
     """pipes protocol lines to the Lean model driver, returns one output line per input line"""
 
-    def __init__(self):
-        self.available = os.path.exists(DRIVER_BIN)
+    def __init__(self, exe):
+        self.bin = os.path.join(LEAN, ".lake", "build", "bin", exe)
+        self.available = os.path.exists(self.bin)
         self.lines_sent = 0
 
     def ask(self, lines):
@@ -70,7 +70,7 @@ class Driver:
         if not lines:
             return []
         data = "\n".join(lines) + "\n"
-        p = subprocess.run([DRIVER_BIN], input=data, stdout=subprocess.PIPE, stderr=subprocess.PIPE, text=True, timeout=1800)
+        p = subprocess.run([self.bin], input=data, stdout=subprocess.PIPE, stderr=subprocess.PIPE, text=True, timeout=1800)
         if p.returncode != 0:
             raise RuntimeError("driver failed: rc=%s %s" % (p.returncode, p.stderr[-2000:]))
         out = p.stdout.split("\n")
